@@ -86,6 +86,7 @@ type thread struct {
 	op      op
 	hash    uint64 // hash of the thread's last event
 	nevents int
+	blocked bool // was ever found pending on a disabled select (parked waiter)
 }
 
 // Decision is one scheduling decision of an execution.
@@ -194,6 +195,46 @@ func Run(guard time.Duration) (hung bool) {
 		s.threads[i].state = tPending
 		s.threads[i].op = op{kind: KUser, label: "start"}
 	}
+	schedule()
+	start := time.Now()
+	for spins := 0; turn != -1; spins++ {
+		runtime.Gosched()
+		if spins&1023 == 1023 && time.Since(start) > guard {
+			abort = true
+			Active = false
+			return true
+		}
+	}
+	Active = false
+	return false
+}
+
+// ParkedInSelect reports whether thread id is pending on a select (a parked waiter).
+//
+//go:norace
+func ParkedInSelect(id int) bool {
+	return s.threads[id].state == tPending && s.threads[id].op.kind == KSelect
+}
+
+// EverParked reports whether thread id was ever found waiting on a select with no ready case.
+//
+//go:norace
+func EverParked(id int) bool { return s.threads[id].blocked }
+
+// Finished reports whether thread id has run to completion.
+//
+//go:norace
+func Finished(id int) bool { return s.threads[id].state == tDone }
+
+// Resume continues an execution that stopped with parked threads after the
+// harness has changed the world from outside (cancelled contexts).
+//
+//go:norace
+func Resume(guard time.Duration) (hung bool) {
+	s.deadlock = false
+	s.done = false
+	s.cur = -1
+	Active = true
 	schedule()
 	start := time.Now()
 	for spins := 0; turn != -1; spins++ {
@@ -389,9 +430,13 @@ func schedule() {
 		if i == s.cur && d.CurStill {
 			continue
 		}
-		if t.state == tPending && enabled(t) {
-			d.Enabled[d.N] = int8(i)
-			d.N++
+		if t.state == tPending {
+			if enabled(t) {
+				d.Enabled[d.N] = int8(i)
+				d.N++
+			} else if t.op.kind == KSelect {
+				t.blocked = true
+			}
 		}
 	}
 	if d.N == 0 {
